@@ -21,7 +21,9 @@
    for it. *)
 From Coq Require Import List Arith Bool Lia Permutation.
 From LMBase Require Import Res ListX.
-From LMScan Require Import ScanModel ScanLemmas ScanProofs.
+From Coq Require Import ZArith.
+From LMBase Require Import IEEE.
+From LMScan Require Import ScanModel ScanLemmas ScanProofs ScanCheck CheckProofs ScanConcrete F32Order ConcreteProofs.
 Import ListNotations.
 
 (* (1) Soundness, unconditional (any block size incl. 0, any wrap, any matrix; whatever
@@ -168,6 +170,76 @@ Proof.
   - apply idx_decomp. destruct R; simpl in *; lia.
 Qed.
 
+(* (5) The executable checker the driver evaluates on the IMPLEMENTATION's observations
+   (scores = score_position at every position 0..L-M as printed by the harness, hits =
+   what the scanner yielded until None, all as binary32 bit patterns) decides this
+   property: when it returns true, the hit list has no duplicate position and contains
+   (i, s) exactly when s is the score of position i and s >= threshold. *)
+Theorem C02_check_sound :
+  forall (scores : list Z) (thr : Z) (hits : list (Z * Z)),
+    check_c02 scores thr hits = true ->
+    Permutation hits (qual scores thr) /\
+    NoDup (map fst hits) /\
+    (forall i s, In (i, s) hits <->
+                 (0 <= i)%Z /\ nth_error scores (Z.to_nat i) = Some s /\
+                 F32.ge (F32.of_bits s) (F32.of_bits thr) = true).
+Proof.
+  intros scores thr hits H. split; [exact (check_c02_sound scores thr hits H)|].
+  exact (check_c02_sound_pointwise scores thr hits H).
+Qed.
+
+(* (6) The concrete binary32 scanner, i.e. the extracted text that is replayed against
+   the implementation on every run (ScanConcrete.v: to_discrete, scale, score_position
+   through Index<usize> of the striped sequence, the u8 block scores through the
+   Generic / Sse2 / Avx2 arms with the guards of the AVX2 wrapper).  For every
+   well-formed input (C >= 1 columns, a non-empty motif with rows of >= K cells, symbols
+   below K, wrap >= M-1), every arm, every block size >= 1 and every threshold, the
+   structural hypotheses of C02_scan_complete are discharged; what remains is the
+   conservativeness of the pre-filter at the threshold (C08).  Then iteration to
+   exhaustion does not panic and yields exactly the positions whose binary32 score is
+   >= thr, with that score, once each. *)
+Theorem C02_concrete_scan :
+  forall (K C : nat) (pssm : list (list F32.t)) (sq : list nat) (wrap : nat) (v : cenv)
+         (am : arm) (thr : F32.t) (B : nat),
+    wf_input K C pssm sq wrap ->
+    c_env K C pssm sq wrap = Ok v ->
+    1 <= B ->
+    (forall i, i < ce_Lm v -> F32.ge (cscore v i) thr = true -> ce_scale v thr <= cdscore v i) ->
+    ce_scores v = map (fun i => Ok (cscore v i)) (seq 0 (ce_Lm v)) /\
+    exists H : list (nat * F32.t),
+      ce_collect v am thr B = Ok H /\
+      (forall i x, In (i, x) H <-> i < ce_Lm v /\ F32.ge (cscore v i) thr = true /\ x = cscore v i) /\
+      NoDup (map fst H).
+Proof.
+  intros K C pssm sq wrap v am thr B Hwf Henv HB Hcons.
+  split; [exact (env_scores K C pssm sq wrap v Hwf Henv)|].
+  pose proof (env_Lm_le K C pssm sq wrap v Hwf Henv) as HLm.
+  destruct (C02_scan_complete F32.t F32.ge F32.is_nan (ce_scale v) (ce_score_position v) (ce_score_rows v am)
+              (ce_R v) (ce_Lm v) B thr (ce_C v) (cscore v) (cdscore v) HB HLm
+              (env_score_position K C pssm sq wrap v Hwf Henv)
+              (env_score_rows K C pssm sq wrap v Hwf Henv am)
+              (fun i _ Hg => proj1 (F32_ge_nan _ _ Hg))
+              Hcons (ce_fuel v)) as (H & Hc & Hin & Hnd & _).
+  { unfold ce_fuel. lia. }
+  exists H. split; [exact Hc|]. split; [exact Hin|exact Hnd].
+Qed.
+
+(* soundness needs no hypothesis at all on the concrete scanner: whatever the matrix,
+   sequence, wrap, block size (0 included) and arm, the hits it yields are distinct valid
+   positions with their exact scores, all >= thr *)
+Theorem C02_concrete_sound :
+  forall (v : cenv) (am : arm) (thr : F32.t) (B : nat) (H : list (nat * F32.t)),
+    ce_collect v am thr B = Ok H ->
+    Forall (fun h => fst h < ce_Lm v /\ ce_score_position v (fst h) = Ok (snd h) /\
+                     F32.ge (snd h) thr = true) H /\
+    NoDup (map fst H).
+Proof.
+  intros v am thr B H Hc.
+  apply (C02_scan_sound F32.t F32.ge F32.is_nan (ce_scale v) (ce_score_position v) (ce_score_rows v am)
+           (ce_R v) (ce_Lm v) B thr) with (fuel := ce_fuel v); [|exact Hc].
+  intros a e m _ _. exact (ce_score_rows_len v am a e m).
+Qed.
+
 Check C02_scan_sound :
   forall (T : Type) (geb : T -> T -> bool) (is_nan : T -> bool) (scale : T -> nat)
          (score_position : nat -> res T) (score_rows : nat -> nat -> res dmatrix)
@@ -248,3 +320,31 @@ Example C02_nonvacuous_short :
   collect Toy.geb Toy.is_nan Toy.scale (fun _ => Panic 20) (fun a e => Ok (block_spec 0 0 3 Toy.dscore a e))
           0 0 2 0 1 init = Ok [].
 Proof. vm_compute. split; reflexivity. Qed.
+
+(* The concrete binary32 scanner on a real instance (ConcreteProofs.Ex: a 3-column motif
+   with a -inf wildcard column, 40 symbols = 2 striped rows of 32 columns, 38 valid
+   positions, threshold 1.0 attained exactly at position 24): every hypothesis of
+   C02_concrete_scan holds (conservativeness by computation over all positions), so its
+   conclusion does, for every arm and block size. *)
+Example C02_concrete_nonvacuous :
+  forall (am : arm) (B : nat), 1 <= B ->
+  exists H : list (nat * F32.t),
+    ce_collect Ex.env am Ex.thr B = Ok H /\
+    (forall i x, In (i, x) H <->
+                 i < ce_Lm Ex.env /\ F32.ge (cscore Ex.env i) Ex.thr = true /\ x = cscore Ex.env i) /\
+    NoDup (map fst H).
+Proof.
+  intros am B HB.
+  exact (proj2 (C02_concrete_scan 5 32 Ex.pssm Ex.sq 2 Ex.env am Ex.thr B Ex.wf Ex.env_ok HB Ex.cons_thr)).
+Qed.
+
+(* what it computes there: 17 of the 38 positions qualify; block size 1 (two blocks) and
+   256 (one block) yield the same set in different orders, under different arms *)
+Example C02_concrete_runs :
+  ce_R Ex.env = 2 /\ ce_Lm Ex.env = 38 /\ ce_scale Ex.env Ex.thr = 159 /\
+  cdscore Ex.env 24 = 160 /\
+  map fst (unres [] (ce_collect Ex.env Avx2 Ex.thr 1))
+    = [26; 24; 20; 18; 8; 0; 33; 31; 29; 25; 23; 21; 17; 15; 13; 9; 5] /\
+  map fst (unres [] (ce_collect Ex.env Generic Ex.thr 256))
+    = [33; 31; 29; 25; 23; 21; 17; 15; 13; 9; 5; 26; 24; 20; 18; 8; 0].
+Proof. vm_compute. repeat split; reflexivity. Qed.
